@@ -184,6 +184,35 @@ func (c *Ctx) role0(name string) *ssa.Function {
 				return cal
 			}
 		}
+		// reached through a function value (a list of section writers): the one unexported File method
+		// with a writer parameter that reads the import table
+		var found []*ssa.Function
+		for _, cal := range c.allFuncs(c.Jen) {
+			if cal.Parent() == nil && isFileMethod(c, cal) && !isExportedName(cal.Name()) && c.writerParam(cal) != nil && cal.Signature.Params().Len() == 1 && cal.Signature.Results().Len() <= 1 && readsImports(cal) {
+				found = append(found, cal)
+			}
+		}
+		if len(found) == 1 {
+			return found[0]
+		}
+		// the block returned as text instead of written: a File method without parameters, returning
+		// a string (and possibly an error), that reads the import table
+		found = nil
+		for _, cal := range c.allFuncs(c.Jen) {
+			if cal.Parent() != nil || !isFileMethod(c, cal) || isExportedName(cal.Name()) || cal.Signature.Params().Len() != 0 || !readsImports(cal) {
+				continue
+			}
+			rs := cal.Signature.Results()
+			if rs.Len() < 1 || rs.Len() > 2 {
+				continue
+			}
+			if b, ok := rs.At(0).Type().Underlying().(*types.Basic); ok && b.Kind() == types.String {
+				found = append(found, cal)
+			}
+		}
+		if len(found) == 1 {
+			return found[0]
+		}
 	case "newStatement":
 		var best *ssa.Function
 		for _, f := range c.allFuncs(c.Jen) {
